@@ -452,7 +452,7 @@ def generate(tier, seed):
         k = rng.randint(1, 15 if i % 2 else 8)
         pool = [f"L{j}" for j in range(k)] if i % 3 else list(range(k))
         labels = [rng.choice(pool) for _ in range(rng.randint(1, 40))]
-        yield "labels", {"labels": labels, "min_count": rng.choice([None, 1, 2, 3, 5]), "which": "hls" if i % 2 else "tableau", "np_seed": i}, i < 20
+        yield "labels", {"labels": labels, "min_count": rng.choice([None, 0, 1, 2, 3, 5, 100]), "which": "hls" if i % 2 else "tableau", "np_seed": i}, i < 20
     for i in range(300 * TS if thorough else 24):
         pts = [[rng.randint(0, 4), rng.randint(0, 3)] for _ in range(rng.randint(1, 40))]
         if i % 3 == 0:
